@@ -93,6 +93,15 @@ PROPS["C13"] = {
     "assumptions": ["usize is 64 bits"],
 }
 
+PROPS["C04"] = {
+    "technique": "Verus contracts on the extracted control / unidirectional-stream state machines (poll_next_varint, poll_type, poll_accept_recv, poll_control, role filters) against RFC 9114 §6.2, §7.2 outcome tables and a fold over the peer's streams",
+    "text": "Unbounded deductive proof of step contracts from arbitrary well-formed pre-states: the stream type (and id) is the RFC 9000 varint reading of the first bytes for every length form and chunk split; EOS/reset before the type is complete is never a connection error; the state after poll_accept_recv equals the RFC fold over the disposition log (second control/encoder/decoder stream ⇒ H3_STREAM_CREATION_ERROR, unknown type ⇒ stop_sending(0x103) on that stream only, WebTransport uni streams queued iff the extension is enabled, no pending entry lost); poll_control maps what the frame stream answered to the outcome (first frame not SETTINGS ⇒ 0x10a, second SETTINGS/DATA/HEADERS/PUSH_PROMISE ⇒ 0x105, close/reset ⇒ 0x104, truncated ⇒ 0x106, reserved types ⇒ 0x105) and never returns Pending having consumed a frame; server and client filters.",
+    "note": "FrameStream::poll_next by its contract (frames unit: unknown frame types are skipped there and never reach this layer); handle_connection_error records the raised error in a ghost log (conn_error unit); BufRecvStream shim with prophetic buf_mut; retain shim (R11); transport traits weakest contracts; loops that end on Pending: partial correctness; poll_accept_recv needs rlimit 80.",
+    "design_ref": "§4 C04",
+    "trusted_base": COMMON_TB + ["inc/c04_conn.rs shims (BufRecvStream, FrameStream, transport, ConnectionInner ghost fields g_raised/g_uni/g_stops)", "callee contracts ASSUMED-FROM-UNIT (frames, buf, conn_error, client_goaway, kani C16)"],
+    "assumptions": ["transport chunks are never empty", "liveness of the grease stream and termination of poll_next_varint's loop are not claimed"],
+}
+
 NOT_YET = "unit not built yet in this round (see DESIGN §8 order of work)"
 for _id in ["C01", "C02", "C03", "C04", "C05", "C06", "C07", "C08", "C09", "C10", "C11", "C12", "C13", "C14", "C15", "C17", "C18", "C19"]:
     PROPS.setdefault(_id, {"not_applicable": NOT_YET})
